@@ -151,8 +151,8 @@ def generate(run_seed: int, tier: str, *, faults: bool) -> dict:
             ops.append(op)
         elif kind == "restart":
             h = rng.choice(handles)
-            how = rng.choice(["pickle2", "pickle3", "pickle4", "pickle5", "pickle5", "copy", "deepcopy", "mm_pickle", "update"])
-            if how == "mm_pickle" and h["id"] != 0:
+            how = rng.choice(["pickle2", "pickle3", "pickle4", "pickle5", "pickle5", "copy", "deepcopy", "mm_pickle", "mm_copy", "mm_deepcopy", "update"])
+            if how.startswith("mm_") and h["id"] != 0:
                 how = "pickle5"
             new = {"id": len(handles), "kind": "restart" if h["kind"] in ("root", "restart") else h["kind"], "of": h["id"]}
             handles.append(new)
@@ -614,6 +614,9 @@ def execute(scenario: dict, env: Any, *, prop: str) -> dict:
                     elif how == "mm_pickle":
                         new_mm = pickle.loads(pickle.dumps(h["mm"]))
                         new_spec = new_mm.model_spec
+                    elif how in ("mm_copy", "mm_deepcopy"):
+                        new_mm = copy.copy(h["mm"]) if how == "mm_copy" else copy.deepcopy(h["mm"])
+                        new_spec = new_mm.model_spec
                     else:
                         if isinstance(h["spec"], ModelSpec):
                             new_spec, new_mm = h["spec"].update(), None
@@ -623,7 +626,7 @@ def execute(scenario: dict, env: Any, *, prop: str) -> dict:
                     raise Violation("c04:restart-failed", {"how": how, "error": repr(e)[:300]})
                 nh = {"spec": new_spec, "mm": new_mm, "ref": h["ref"], "kind": h["kind"] if h["kind"] != "root" else "restart",
                       "depth": h["depth"] + 1, "born": step, "names": h["names"]}
-                if how in ("copy", "update"):
+                if how in ("copy", "update", "mm_copy"):
                     nh["shares_state_with"] = op["h"]
                 if "atoms" in h:
                     nh["atoms"], nh["vars"] = h["atoms"], h["vars"]
